@@ -48,10 +48,48 @@ type DynObs struct {
 type recMgr struct {
 	*nginx.FakeManager
 	conf, stream map[string]string
+	pushed       map[string][]string // upstream -> servers of the last UpdateServersInPlus / UpdateStreamServersInPlus
 }
 
 func newRecMgr() *recMgr {
-	return &recMgr{FakeManager: nginx.NewFakeManager("/etc/nginx"), conf: map[string]string{}, stream: map[string]string{}}
+	return &recMgr{FakeManager: nginx.NewFakeManager("/etc/nginx"), conf: map[string]string{}, stream: map[string]string{},
+		pushed: map[string][]string{}}
+}
+func (m *recMgr) UpdateServersInPlus(upstream string, servers []string, _ nginx.ServerConfig) error {
+	m.pushed[upstream] = append([]string{}, servers...)
+	return nil
+}
+func (m *recMgr) UpdateStreamServersInPlus(upstream string, servers []string) error {
+	m.pushed[upstream] = append([]string{}, servers...)
+	return nil
+}
+
+// upstreamServers returns, per `upstream NAME {` block of all recorded files, the addresses of its `server` directives.
+func (m *recMgr) upstreamServers() map[string][]string {
+	out := map[string][]string{}
+	for _, files := range []map[string]string{m.conf, m.stream} {
+		for _, conf := range files {
+			cur := ""
+			for _, line := range strings.Split(conf, "\n") {
+				f := strings.Fields(line)
+				if len(f) == 0 {
+					continue
+				}
+				switch {
+				case f[0] == "upstream" && len(f) > 1:
+					cur = f[1]
+					if _, ok := out[cur]; !ok {
+						out[cur] = []string{}
+					}
+				case cur != "" && f[0] == "}":
+					cur = ""
+				case cur != "" && f[0] == "server" && len(f) > 1:
+					out[cur] = append(out[cur], strings.TrimSuffix(f[1], ";"))
+				}
+			}
+		}
+	}
+	return out
 }
 func (m *recMgr) CreateConfig(name string, content []byte) bool {
 	m.conf[name] = string(content)
